@@ -129,6 +129,21 @@ EDITS = [
          "                popped.append(heapq.heappop(self._pq))\n",
          "                head = heapq.heappop(self._pq)\n                popped.append(head)\n"
          "                yield head.priority, head.obj\n")]),
+    ("S19-copy-drops-sequence-numbers", "semantic", [
+        ("PriEntry(e.priority, e.sequence, e.obj) for e in self._pq", "PriEntry(e.priority, 0, e.obj) for e in self._pq")]),
+    ("S20-extend-heapify-inside-loop", "semantic", [
+        ("            self._sequence += 1\n        heapq.heapify(self._pq)\n",
+         "            self._sequence += 1\n            heapq.heapify(self._pq)\n")]),
+    ("S21-restore-pushes-in-reverse", "semantic", [
+        ("                for entry in popped:\n", "                for entry in reversed(popped):\n")]),
+    ("S22-add-argument-order", "semantic", [
+        ("PriEntry(pri, self._sequence, obj))\n        self._sequence += 1", "PriEntry(pri, obj, self._sequence))\n        self._sequence += 1")]),
+    ("S23-prientry-init-swaps-fields", "semantic", [
+        ("        self.sequence = sequence\n        self.obj = obj\n", "        self.sequence = obj\n        self.obj = sequence\n")]),
+    ("S24-reschedule-new-sequence", "semantic", [
+        ("                    entry.priority = new_priority\n                    heapq.heapify(self._pq)\n",
+         "                    entry.priority = new_priority\n                    entry.sequence = self._sequence\n"
+         "                    self._sequence += 1\n                    heapq.heapify(self._pq)\n")]),
     ("S18-remove-returns-wrong-entry", "semantic", [
         ("            e = self._pq[i]\n            self._pq[i] = self._pq.pop()\n",
          "            e = self._pq[i]\n            self._pq[i] = self._pq.pop()\n            e = self._pq[i]\n")]),
@@ -179,7 +194,10 @@ def evaluate(scratch: Path, run_check: bool):
         (scratch.parent / "ev").mkdir(exist_ok=True)
         rc, out = sh([str(ROOT / "check"), "C17"], cwd=ROOT, env=env)
         v = [l for l in out.split("\n") if l.startswith("VIOLATION")]
-        chk = f"exit {rc}" + (": " + "; ".join(re.sub(r"replay=\S+/", "replay=", x) for x in v) if v else "")
+        nf = sum("no-failing-input-found" in x for x in v)
+        chk = f"exit {rc}"
+        if v:
+            chk += f": {len(v) - nf} replay(s) with a failing input" if len(v) > nf else ": no-failing-input-found (only the proof obligation)"
     return tr, build, chk
 
 
